@@ -183,86 +183,47 @@ Require Verif.Tie.Nuget.
 Require Verif.Tie.Pypi.
 Require Verif.Tie.Rpm.
 Require Verif.Tie.Semver.
-Definition C01_tie_alpine_compareInt := Verif.Tie.Alpine.tie_alpine_compareInt.
-Print Assumptions C01_tie_alpine_compareInt.
-Definition C01_tie_alpine_compareLetters := Verif.Tie.Alpine.tie_alpine_compareLetters.
-Print Assumptions C01_tie_alpine_compareLetters.
-Definition C01_tie_alpm_compare := Verif.Tie.Alpm.tie_alpm_compare.
-Print Assumptions C01_tie_alpm_compare.
-Definition C01_tie_apache_compareInt := Verif.Tie.Apache.tie_apache_compareInt.
-Print Assumptions C01_tie_apache_compareInt.
-Definition C01_tie_apache_getQualifierPrecedence := Verif.Tie.Apache.tie_apache_getQualifierPrecedence.
-Print Assumptions C01_tie_apache_getQualifierPrecedence.
-Definition C01_tie_apache_compare := Verif.Tie.Apache.tie_apache_compare.
-Print Assumptions C01_tie_apache_compare.
-Definition C01_tie_cargo_compareInt := Verif.Tie.Cargo.tie_cargo_compareInt.
-Print Assumptions C01_tie_cargo_compareInt.
-Definition C01_tie_cargo_compare := Verif.Tie.Cargo.tie_cargo_compare.
-Print Assumptions C01_tie_cargo_compare.
-Definition C01_tie_composer_compareInt := Verif.Tie.Composer.tie_composer_compareInt.
-Print Assumptions C01_tie_composer_compareInt.
-Definition C01_tie_composer_compare := Verif.Tie.Composer.tie_composer_compare.
-Print Assumptions C01_tie_composer_compare.
-Definition C01_tie_conan_compareInt := Verif.Tie.Conan.tie_conan_compareInt.
-Print Assumptions C01_tie_conan_compareInt.
-Definition C01_tie_conan_Version_Compare := Verif.Tie.Conan.tie_conan_Version_Compare.
-Print Assumptions C01_tie_conan_Version_Compare.
-Definition C01_tie_cran_compareInt := Verif.Tie.Cran.tie_cran_compareInt.
-Print Assumptions C01_tie_cran_compareInt.
-Definition C01_tie_debian_compare := Verif.Tie.Debian.tie_debian_compare.
-Print Assumptions C01_tie_debian_compare.
-Definition C01_tie_gem_compareInt := Verif.Tie.Gem.tie_gem_compareInt.
-Print Assumptions C01_tie_gem_compareInt.
-Definition C01_tie_gem_compareSegments := Verif.Tie.Gem.tie_gem_compareSegments.
-Print Assumptions C01_tie_gem_compareSegments.
-Definition C01_tie_gentoo_compareInt := Verif.Tie.Gentoo.tie_gentoo_compareInt.
-Print Assumptions C01_tie_gentoo_compareInt.
-Definition C01_tie_github_compareInt := Verif.Tie.Github.tie_github_compareInt.
-Print Assumptions C01_tie_github_compareInt.
-Definition C01_tie_github_getQualifierPrecedence := Verif.Tie.Github.tie_github_getQualifierPrecedence.
-Print Assumptions C01_tie_github_getQualifierPrecedence.
-Definition C01_tie_github_compareQualifiers := Verif.Tie.Github.tie_github_compareQualifiers.
-Print Assumptions C01_tie_github_compareQualifiers.
-Definition C01_tie_github_compare := Verif.Tie.Github.tie_github_compare.
-Print Assumptions C01_tie_github_compare.
-Definition C01_tie_golang_compareInt := Verif.Tie.Golang.tie_golang_compareInt.
-Print Assumptions C01_tie_golang_compareInt.
-Definition C01_tie_golang_Version_Compare := Verif.Tie.Golang.tie_golang_Version_Compare.
-Print Assumptions C01_tie_golang_Version_Compare.
-Definition C01_tie_hex_compareInt := Verif.Tie.Hex.tie_hex_compareInt.
-Print Assumptions C01_tie_hex_compareInt.
-Definition C01_tie_hex_compare := Verif.Tie.Hex.tie_hex_compare.
-Print Assumptions C01_tie_hex_compare.
-Definition C01_tie_mattermost_compareInt := Verif.Tie.Mattermost.tie_mattermost_compareInt.
-Print Assumptions C01_tie_mattermost_compareInt.
-Definition C01_tie_mattermost_getQualifierPrecedence := Verif.Tie.Mattermost.tie_mattermost_getQualifierPrecedence.
-Print Assumptions C01_tie_mattermost_getQualifierPrecedence.
-Definition C01_tie_mattermost_compare := Verif.Tie.Mattermost.tie_mattermost_compare.
-Print Assumptions C01_tie_mattermost_compare.
-Definition C01_tie_npm_compareInt := Verif.Tie.Npm.tie_npm_compareInt.
-Print Assumptions C01_tie_npm_compareInt.
-Definition C01_tie_npm_compare := Verif.Tie.Npm.tie_npm_compare.
-Print Assumptions C01_tie_npm_compare.
-Definition C01_tie_nuget_compareInt := Verif.Tie.Nuget.tie_nuget_compareInt.
-Print Assumptions C01_tie_nuget_compareInt.
-Definition C01_tie_nuget_compare := Verif.Tie.Nuget.tie_nuget_compare.
-Print Assumptions C01_tie_nuget_compare.
-Definition C01_tie_pypi_compareInt := Verif.Tie.Pypi.tie_pypi_compareInt.
-Print Assumptions C01_tie_pypi_compareInt.
-Definition C01_tie_pypi_normalizePrereleaseType := Verif.Tie.Pypi.tie_pypi_normalizePrereleaseType.
-Print Assumptions C01_tie_pypi_normalizePrereleaseType.
-Definition C01_tie_pypi_comparePrereleases := Verif.Tie.Pypi.tie_pypi_comparePrereleases.
-Print Assumptions C01_tie_pypi_comparePrereleases.
-Definition C01_tie_pypi_comparePostReleases := Verif.Tie.Pypi.tie_pypi_comparePostReleases.
-Print Assumptions C01_tie_pypi_comparePostReleases.
-Definition C01_tie_pypi_compareDevReleases := Verif.Tie.Pypi.tie_pypi_compareDevReleases.
-Print Assumptions C01_tie_pypi_compareDevReleases.
-Definition C01_tie_pypi_Version_Compare := Verif.Tie.Pypi.tie_pypi_Version_Compare.
-Print Assumptions C01_tie_pypi_Version_Compare.
-Definition C01_tie_rpm_compare := Verif.Tie.Rpm.tie_rpm_compare.
-Print Assumptions C01_tie_rpm_compare.
-Definition C01_tie_semver_compareInt := Verif.Tie.Semver.tie_semver_compareInt.
-Print Assumptions C01_tie_semver_compareInt.
-Definition C01_tie_semver_compare := Verif.Tie.Semver.tie_semver_compare.
-Print Assumptions C01_tie_semver_compare.
+Definition C01_tie_alpine_compareInt := @Verif.Tie.Alpine.tie_alpine_compareInt.
+Definition C01_tie_alpine_compareLetters := @Verif.Tie.Alpine.tie_alpine_compareLetters.
+Definition C01_tie_alpm_compare := @Verif.Tie.Alpm.tie_alpm_compare.
+Definition C01_tie_apache_compareInt := @Verif.Tie.Apache.tie_apache_compareInt.
+Definition C01_tie_apache_getQualifierPrecedence := @Verif.Tie.Apache.tie_apache_getQualifierPrecedence.
+Definition C01_tie_apache_compare := @Verif.Tie.Apache.tie_apache_compare.
+Definition C01_tie_cargo_compareInt := @Verif.Tie.Cargo.tie_cargo_compareInt.
+Definition C01_tie_cargo_compare := @Verif.Tie.Cargo.tie_cargo_compare.
+Definition C01_tie_composer_compareInt := @Verif.Tie.Composer.tie_composer_compareInt.
+Definition C01_tie_composer_compare := @Verif.Tie.Composer.tie_composer_compare.
+Definition C01_tie_conan_compareInt := @Verif.Tie.Conan.tie_conan_compareInt.
+Definition C01_tie_conan_Version_Compare := @Verif.Tie.Conan.tie_conan_Version_Compare.
+Definition C01_tie_cran_compareInt := @Verif.Tie.Cran.tie_cran_compareInt.
+Definition C01_tie_debian_compare := @Verif.Tie.Debian.tie_debian_compare.
+Definition C01_tie_gem_compareInt := @Verif.Tie.Gem.tie_gem_compareInt.
+Definition C01_tie_gem_compareSegments := @Verif.Tie.Gem.tie_gem_compareSegments.
+Definition C01_tie_gentoo_compareInt := @Verif.Tie.Gentoo.tie_gentoo_compareInt.
+Definition C01_tie_github_compareInt := @Verif.Tie.Github.tie_github_compareInt.
+Definition C01_tie_github_getQualifierPrecedence := @Verif.Tie.Github.tie_github_getQualifierPrecedence.
+Definition C01_tie_github_compareQualifiers := @Verif.Tie.Github.tie_github_compareQualifiers.
+Definition C01_tie_github_compare := @Verif.Tie.Github.tie_github_compare.
+Definition C01_tie_golang_compareInt := @Verif.Tie.Golang.tie_golang_compareInt.
+Definition C01_tie_golang_Version_Compare := @Verif.Tie.Golang.tie_golang_Version_Compare.
+Definition C01_tie_hex_compareInt := @Verif.Tie.Hex.tie_hex_compareInt.
+Definition C01_tie_hex_compare := @Verif.Tie.Hex.tie_hex_compare.
+Definition C01_tie_mattermost_compareInt := @Verif.Tie.Mattermost.tie_mattermost_compareInt.
+Definition C01_tie_mattermost_getQualifierPrecedence := @Verif.Tie.Mattermost.tie_mattermost_getQualifierPrecedence.
+Definition C01_tie_mattermost_compare := @Verif.Tie.Mattermost.tie_mattermost_compare.
+Definition C01_tie_npm_compareInt := @Verif.Tie.Npm.tie_npm_compareInt.
+Definition C01_tie_npm_compare := @Verif.Tie.Npm.tie_npm_compare.
+Definition C01_tie_nuget_compareInt := @Verif.Tie.Nuget.tie_nuget_compareInt.
+Definition C01_tie_nuget_compare := @Verif.Tie.Nuget.tie_nuget_compare.
+Definition C01_tie_pypi_compareInt := @Verif.Tie.Pypi.tie_pypi_compareInt.
+Definition C01_tie_pypi_normalizePrereleaseType := @Verif.Tie.Pypi.tie_pypi_normalizePrereleaseType.
+Definition C01_tie_pypi_comparePrereleases := @Verif.Tie.Pypi.tie_pypi_comparePrereleases.
+Definition C01_tie_pypi_comparePostReleases := @Verif.Tie.Pypi.tie_pypi_comparePostReleases.
+Definition C01_tie_pypi_compareDevReleases := @Verif.Tie.Pypi.tie_pypi_compareDevReleases.
+Definition C01_tie_pypi_Version_Compare := @Verif.Tie.Pypi.tie_pypi_Version_Compare.
+Definition C01_tie_rpm_compare := @Verif.Tie.Rpm.tie_rpm_compare.
+Definition C01_tie_semver_compareInt := @Verif.Tie.Semver.tie_semver_compareInt.
+Definition C01_tie_semver_compare := @Verif.Tie.Semver.tie_semver_compare.
+Definition C01_ties_all := (C01_tie_alpine_compareInt, (C01_tie_alpine_compareLetters, (C01_tie_alpm_compare, (C01_tie_apache_compare, (C01_tie_apache_compareInt, (C01_tie_apache_getQualifierPrecedence, (C01_tie_cargo_compare, (C01_tie_cargo_compareInt, (C01_tie_composer_compare, (C01_tie_composer_compareInt, (C01_tie_conan_Version_Compare, (C01_tie_conan_compareInt, (C01_tie_cran_compareInt, (C01_tie_debian_compare, (C01_tie_gem_compareInt, (C01_tie_gem_compareSegments, (C01_tie_gentoo_compareInt, (C01_tie_github_compare, (C01_tie_github_compareInt, (C01_tie_github_compareQualifiers, (C01_tie_github_getQualifierPrecedence, (C01_tie_golang_Version_Compare, (C01_tie_golang_compareInt, (C01_tie_hex_compare, (C01_tie_hex_compareInt, (C01_tie_mattermost_compare, (C01_tie_mattermost_compareInt, (C01_tie_mattermost_getQualifierPrecedence, (C01_tie_npm_compare, (C01_tie_npm_compareInt, (C01_tie_nuget_compare, (C01_tie_nuget_compareInt, (C01_tie_pypi_Version_Compare, (C01_tie_pypi_compareDevReleases, (C01_tie_pypi_compareInt, (C01_tie_pypi_comparePostReleases, (C01_tie_pypi_comparePrereleases, (C01_tie_pypi_normalizePrereleaseType, (C01_tie_rpm_compare, (C01_tie_semver_compare, C01_tie_semver_compareInt)))))))))))))))))))))))))))))))))))))))).
+Print Assumptions C01_ties_all.
 (* ====== ties to the source: END ====== *)
